@@ -642,6 +642,10 @@ pub fn program(roots: &[Node]) -> String {
 const IDENTS: &[&str] = &[
     "count", "request_id", "http2_request", "IOps", "a__b", "bytes_in", "x1", "latency_p99", "isOK", "retry_count2",
     "user_agent", "ttl",
+    // words that are also flatten-prefix stems: somewhere in the same crate (= the same macro
+    // process) the word is a field name in one type and a prefix, with or without its trailing
+    // delimiter, in another - each use must be named by its own rule whatever was expanded before
+    "alpha", "q", "zeta_9", "beta_two",
 ];
 const STEMS: &[&str] = &["alpha", "beta_two", "Gamma", "delta2x", "IoT", "web-api", "q", "zeta_9"];
 const EXACT: &[&str] = &["API:", "x.", "Q-", "Mixed_Case:", ""];
